@@ -27,6 +27,15 @@
 using namespace vf;
 using wire::Chooser;
 
+#ifdef VERIF_VARIANT_TSAN
+// ThreadSanitizer models descriptor numbers as synchronisation objects; its epoll_ctl interceptor reports (and in clang 14 sometimes crashes while reporting, CHECK in
+// ScopedReportBase::AddLocation) a "race" when the event thread's deferred EPOLL_CTL_DEL uses a number another thread has re-opened (DESIGN.md section 10, entry 27).
+// A strong definition here takes precedence over the runtime's weak interceptor, so epoll_ctl goes straight to the kernel; the library synchronises through its own mutexes.
+#include <sys/epoll.h>
+#include <sys/syscall.h>
+extern "C" int epoll_ctl(int epfd, int op, int fd, struct epoll_event *ev) { return (int)syscall(SYS_epoll_ctl, epfd, op, fd, ev); }
+#endif
+
 static int64_t now_us() { struct timespec ts; clock_gettime(CLOCK_MONOTONIC, &ts); return (int64_t)ts.tv_sec * 1000000 + ts.tv_nsec / 1000; }
 
 // ------------------------------------------------------------------ mock server (own thread; plain sockets; atomics only)
@@ -254,7 +263,7 @@ bool run_case(const std::string &text, std::string &sig, bool &nontrivial) {
   signal(SIGALRM, [](int) { static const char m[] = "\nERROR: VERIF-HANG: case exceeded its wall-clock budget (threads blocked)\n"; if (write(2, m, sizeof m - 1) < 0) {} _exit(95); });
   alarm(90);
   struct AlarmOff { ~AlarmOff() { alarm(0); } } alarm_off;
-  for (int attempt = 0; attempt < 3; attempt++) { o = run_program(P); if (o.ok) break; bool timing = o.sig.find("never-completes") != std::string::npos || o.sig.find("exceeds-retry-budget") != std::string::npos; if (!timing) break; stats().count("thr.timing_oracle_retries"); }
+  for (int attempt = 0; attempt < 3; attempt++) { o = run_program(P); if (o.ok) break; bool timing = o.sig.find("never-completes") != std::string::npos || o.sig.find("exceeds-retry-budget") != std::string::npos; if (!timing || getenv("VERIF_THR_STRICT")) break; stats().count("thr.timing_oracle_retries"); msg("NOTE timing oracle missed on attempt %d: %s\n", attempt + 1, o.detail.substr(0, 300).c_str()); }
   nontrivial = o.nontrivial;
   if (!o.ok) { sig = o.sig; if (!o.detail.empty()) msg("DETAIL %s\n", o.detail.substr(0, 1500).c_str()); return false; }
   return true;
